@@ -238,6 +238,17 @@ def run_flow_case(c):
 
         np.random.randn = randn
         p._marginalise_augment = marg
+    minlq_seen = []
+    real_fp = p.forward_pass
+
+    def fp(x, *a, **k):
+        r = real_fp(x, *a, **k)
+        if x is p.training_data and sys._getframe(1).f_code.co_name == "populate":
+            with np.errstate(all="ignore"):
+                minlq_seen.append(float(np.min(r[1])))
+        return r
+
+    p.forward_pass = fp
     spy = RandSpy()
     spy.tag = lambda: len(calls) - 1
     lo_hi = loop_lines(FlowProposal.populate)
@@ -268,6 +279,7 @@ def run_flow_case(c):
             del spy.calls[:]
             del spy.latent_us[:]
             del marg_calls[:]
+            del minlq_seen[:]
             model.rec = []
             rec = {}
             try:
@@ -363,8 +375,13 @@ def run_flow_case(c):
             if first is not None or rec.get("empty_pool"):
                 pass
             if c["trunc"]:
-                with np.errstate(all="ignore"):
-                    rec["minlq"] = fx(p.forward_pass(p.training_data)[1].min())
+                # the threshold populate itself computed (for the augmented proposal the forward pass of the training data
+                # draws fresh augment values, so it cannot be recomputed afterwards)
+                if minlq_seen:
+                    rec["minlq"] = fx(minlq_seen[-1])
+                else:
+                    with np.errstate(all="ignore"):
+                        rec["minlq"] = fx(p.forward_pass(p.training_data)[1].min())
             if first is not None:
                 pool = p.samples.copy()
                 pk = keys_of(pool)
